@@ -135,7 +135,13 @@ func (g *gen) randomScript(o scriptOpts, c *ctx) []Stmt {
 	for step := 0; step < o.steps; step++ {
 		if len(s.Tables) == 0 || (len(s.Tables) < 4 && g.rng.Intn(6) == 0) {
 			t := g.newTable(s, 4)
-			emit(Stmt{Kind: "createTable", T: t.Name, Cols: t.Cols})
+			st := Stmt{Kind: "createTable", T: t.Name, Cols: t.Cols}
+			// a key declared as a table constraint inside CREATE TABLE (seeded change C03-p): MySQL, no inline key
+			if g.dialect == "mysql" && o.keys && !t.hasPk() && len(t.Cols) > 0 && g.rng.Intn(4) == 0 {
+				st.Pk = []string{t.Cols[0].Name}
+				c.count("create_table_with_key_constraint")
+			}
+			emit(st)
 			continue
 		}
 		t := s.Tables[g.rng.Intn(len(s.Tables))]
